@@ -32,4 +32,26 @@ mod proofs {
         assert!(q == n as f64);
         assert!(q.is_finite() && q >= 0.0);
     }
+
+    /// C14: a probability argument of value zero never fires: for all r in [0,1) and p == 0.0 (either sign),
+    /// `r < p.clamp(0., 1.)` is false -- the expression shape of `corrupt_whitespace` (clamp, then `r < p`).
+    #[kani::proof]
+    fn zero_prob_never_fires() {
+        let r: f64 = kani::any();
+        let p: f64 = kani::any();
+        kani::assume(r >= 0.0 && r < 1.0);
+        kani::assume(p == 0.0);
+        let q = p.clamp(0., 1.);
+        assert!(!(r < q));
+    }
+
+    /// C14: the constructor's domain assertion `iw_p > 0. || dw_p > 0.` (after clamping) is the negation of "both zero or
+    /// negative or NaN"; used only to state the domain, nothing is derived from it
+    #[kani::proof]
+    fn clamp_keeps_unit_interval() {
+        let p: f64 = kani::any();
+        kani::assume(!p.is_nan());
+        let q = p.clamp(0., 1.);
+        assert!(q >= 0.0 && q <= 1.0);
+    }
 }
